@@ -2,8 +2,11 @@
    Level: translation validation by a proven-sound checker (run inside Coq on the dumped tables of every
    generated execution) + theorems about the writing discipline of BaseStep._persist_token. *)
 From Coq Require Import List NArith.
-From SF Require Import Prov.Model Prov.Proofs.
+From Coq Require Import ZArith Permutation.
+From SF Require Import Base.Str Prov.Model Prov.Proofs Prov.Steps Prov.StepsProofs.
+From SF Require Tags.Model Net.Model Gather.Model Gather.Proofs Comb.Model Comb.Proofs Comb.Flat Comb.Cart Loop.Model Loop.Proofs.
 Import ListNotations.
+Local Open Scope string_scope. Local Open Scope list_scope.
 
 (* If the checker accepts a dump (ids of the `token` rows, rows of `provenance`, and for every emitted token the
    set of persisted tokens it was computed from), then: every edge joins persisted tokens and goes from a
@@ -32,6 +35,89 @@ Theorem C07_discipline_keeps_order_partial : forall ops n d,
   forall a b, In (a, b) (pedges d) -> (a < b)%N /\ (b < next d)%N.
 Proof. exact discipline_keeps_order. Qed.
 
+(* ================= step level: what each step kind passes to _persist_token as input_token_ids (Prov/Steps.v mirrors the
+   `input_token_ids=` / get_entity_ids(...) arguments of workflow/step.py on top of the step models proved in the
+   other areas), and that this is exactly what the step consumed to compute the token — for every arrival order.
+   What stays per-run only (decided by the checker on the dumped tables, not proved): ExecuteStep / ScheduleStep /
+   TransferStep / InputInjectorStep (job tokens, connector tokens), ListMergeCombinator, DefaultTransformer,
+   LoopOutputStep with policy "last", combinators outside C02's shapes. *)
+
+(* ScatterStep._scatter(token): the n elements and the size token are each recorded with exactly [id of token] *)
+Theorem C07_step_inputs_scatter : forall id n,
+  length (scatter_prov id n) = S n /\ forall r, In r (scatter_prov id n) -> r = [id].
+Proof. intros id n. split; [apply scatter_count|apply scatter_inputs]. Qed.
+
+(* Transformer.run / ConditionalStep.run (Net.Model's round, tokens carrying their id): for ANY sequence of rounds —
+   any port contents, tags in any order, groups completing rounds later — every record (tag g, ids) is
+   get_entity_ids of one complete group: nin tokens, one per input port (distinct port indices), all tagged g *)
+Theorem C07_step_inputs_transformer_rounds : forall k nin nout rounds g ids,
+  In (g, ids) (rounds_prov k nin nout [] rounds) ->
+  exists inner : list (nat * Net.Model.tok),
+    ids = group_ids inner /\ length inner = nin /\ NoDup (map fst inner) /\
+    forall p, In p inner -> Net.Model.tok_tag (snd p) = g.
+Proof.
+  intros k nin nout rounds g ids H.
+  destruct (rounds_inputs k nin nout rounds [] g ids imap_ok_nil H) as [inner [E [[T N] L]]].
+  exists inner. repeat split; auto.
+Qed.
+
+(* GatherStep._gather (C01's model): for every legal arrival order of the scattered instances, every emitted token is
+   the list of one instance and its recorded inputs are the size token of that key followed by every element
+   token of that key, each once *)
+Theorem C07_step_inputs_gather :
+  forall (sid : Gather.Proofs.inst -> N) (insts : list Gather.Proofs.inst) l1 l2 p1 p2,
+  Forall Gather.Proofs.inst_ok insts -> NoDup (map Gather.Proofs.ikey insts) ->
+  Permutation (l1 ++ l2) (Gather.Proofs.all_arrivals insts) -> p1 <> p2 ->
+  (forall a, In a l2 -> Gather.Model.port_of a <> p1) ->
+  let s := Gather.Model.gather_run 1
+             (l1 ++ Gather.Model.OnTerm p1 Gather.Model.Completed :: l2 ++ [Gather.Model.OnTerm p2 Gather.Model.Completed]) in
+  forall out, In out (Gather.Model.gout (Gather.Model.gd s)) ->
+    exists i, In i insts /\ out = Gather.Model.ListTok (Gather.Proofs.ikey i) (snd i) /\
+              gather_prov (sizes_of sid insts) out = sid i :: map tok_id (snd i).
+Proof. exact gather_inputs. Qed.
+
+(* CombinatorStep with the flat dot product (C02's model, tokens = (id, tag)): for every arrival order nothing is
+   raised and every emitted combination records the ids of exactly the n tokens of its tag, one per port *)
+Theorem C07_step_inputs_dot : forall items (arr : list Comb.Flat.arv), Comb.Flat.wf items arr ->
+  snd (Comb.Model.run (Comb.Proofs.c1 items) Comb.Model.init_state arr) = None /\
+  forall s, In s (concat (fst (Comb.Model.run (Comb.Proofs.c1 items) Comb.Model.init_state arr))) ->
+    exists g, length (Comb.Flat.sel g arr) = length items /\ NoDup (map fst (Comb.Flat.sel g arr)) /\
+              schema_ids s = map (fun x : Comb.Flat.arv => fst (snd x)) (Comb.Flat.sel g arr).
+Proof. exact dot_inputs. Qed.
+
+(* ... and with the cartesian product of depth d >= 1: the ids of one arrived token per port, in port order *)
+Theorem C07_step_inputs_cartesian : forall items d (Hd : d <> 0) (arr : list Comb.Flat.arv),
+  items <> [] -> Comb.Cart.wfc items d arr ->
+  snd (Comb.Model.run (Comb.Cart.cc items d) Comb.Model.init_state arr) = None /\
+  forall s, In s (concat (fst (Comb.Model.run (Comb.Cart.cc items d) Comb.Model.init_state arr))) ->
+    exists ch, map fst ch = items /\ (forall y, In y ch -> In y arr) /\
+               schema_ids s = map (fun x : Comb.Flat.arv => fst (snd x)) ch.
+Proof. exact cart_inputs. Qed.
+
+(* LoopOutputStep, policy "all" (C06's model): the recorded inputs of an instance's output are all its iteration tokens.
+   _partial: policy "last" records the same ids but its emitted token does not hold them; not stated here. *)
+Theorem C07_step_inputs_loop_output_all_partial :
+  forall (insts : list Gather.Proofs.inst) (arr : list Loop.Model.larr),
+  Forall Gather.Proofs.inst_ok insts -> NoDup (map Gather.Proofs.ikey insts) ->
+  Permutation arr (Loop.Proofs.all_larr insts) ->
+  forall out, In out (Loop.Model.lout (Loop.Model.loop_run Loop.Model.OutAll (arr ++ [Loop.Model.LTerm Gather.Model.Completed]))) ->
+    exists i, In i insts /\ out = Gather.Model.ListTok (Tags.Model.render (fst i)) (snd i) /\
+              loop_prov out = map tok_id (snd i).
+Proof. exact loop_all_inputs. Qed.
+
+(* known finding (known/C07.txt, sig prov/wrong-dependees/job-pairing): ExecuteStep._check_inputs runs the k-th tag that
+   completes under the k-th job of the job port; when the two orders differ a tag is linked to another tag's job *)
+Theorem C07_execute_job_pairing_refuted : exists jobs completed j t,
+  Permutation jobs completed /\ In (j, t) (pair_jobs jobs completed) /\ j <> t.
+Proof. exact job_pairing_refuted. Qed.
+
+(* instances *)
+Example C07_rounds_example :
+  rounds_prov (Net.Model.KXf 0%Z []) 2 1 []
+    [[Net.Model.Tok "0.0" 1%Z; Net.Model.Tok "0.1" 3%Z]; [Net.Model.Tok "0.1" 2%Z; Net.Model.Tok "0.0" 4%Z]]
+  = [("0.0", [1; 4]%Z); ("0.1", [3; 2]%Z)].
+Proof. vm_compute. reflexivity. Qed.
+
 (* non-vacuity: an accepted dump with a diamond, a rejected one (missing edge), a rejected cycle *)
 Example C07_accepts : prov_ok [1;2;3;4;5]%N [(1,3);(2,3);(3,4);(3,5)]%N [(3,[2;1]);(4,[3]);(5,[3])]%N = true.
 Proof. reflexivity. Qed.
@@ -46,3 +132,10 @@ Proof. reflexivity. Qed.
 
 Print Assumptions C07_checker_sound.
 Print Assumptions C07_discipline_keeps_order_partial.
+Print Assumptions C07_step_inputs_scatter.
+Print Assumptions C07_step_inputs_transformer_rounds.
+Print Assumptions C07_step_inputs_gather.
+Print Assumptions C07_step_inputs_dot.
+Print Assumptions C07_step_inputs_cartesian.
+Print Assumptions C07_step_inputs_loop_output_all_partial.
+Print Assumptions C07_execute_job_pairing_refuted.
